@@ -410,6 +410,7 @@ def EvOK (cfg : WCfg) (w : World) : Ev → Prop
   | .snapshot _ cmds _ => ∀ c ∈ cmds, TxnSafe c
   | .book src bk => bk.Valid ∧ BookClean cfg w src bk
   | .toolRaw _ _ _ => False
+  | .restart _ _ => False      -- restarts are covered by the global theorem (`GInv`, Proofs/BisyncGlobal.lean)
 
 def GoodRun (cfg : WCfg) : World → List Ev → Prop
   | _, [] => True
@@ -604,7 +605,7 @@ theorem step_book (cfg : WCfg) (hf : FOK cfg.parser.filter) (w : World) (hinv : 
 
 /-- what the link record looks like after an emission -/
 def linkAfter (l : LinkSt) (pst' : PState) (tag : Tag) (e : Emit) : LinkSt :=
-  { l with pos := l.pos + 1, pst := pst', emitted := l.emitted ++ [(tag, e)] }
+  { l with pos := l.pos + 1, pst := pst', emitted := l.emitted ++ [(tag, e)], cpos := l.pos + 1 }
 
 theorem execAt_setLink (cfg : WCfg) (w : World) (src s : SiteId) (l : LinkSt) (isTxn : Bool) (cmds : List Cmd)
     (tag : Tag) : execAt cfg (w.setLink src l) s isTxn cmds tag = (execAt cfg w s isTxn cmds tag).setLink src l := by
@@ -788,6 +789,7 @@ theorem step_preserves (cfg : WCfg) (hf : FOK cfg.parser.filter) (w : World) (hi
   | snapshot src cmds arg => exact step_snapshot cfg hf w hinv src cmds arg hok
   | book src bk => exact step_book cfg hf w hinv src bk hok.1 hok.2
   | toolRaw _ _ _ => exact hok.elim
+  | restart _ _ => exact hok.elim
 
 theorem run_preserves (cfg : WCfg) (hf : FOK cfg.parser.filter) (evs : List Ev) (w : World) (hinv : WInv cfg w)
     (hgood : GoodRun cfg w evs) : WInv cfg (runWorld cfg w evs) := by
@@ -904,6 +906,7 @@ theorem quiesce (cfg : WCfg) (hf : FOK cfg.parser.filter) (evs : List Ev) (w : W
     | snapshot _ _ _ => exact absurd he (by simp [Ev.isLink])
     | book _ _ => exact absurd he (by simp [Ev.isLink])
     | toolRaw _ _ _ => exact absurd he (by simp [Ev.isLink])
+    | restart _ _ => exact absurd he (by simp [Ev.isLink])
 
 /-- only client blocks are ever committed -/
 theorem dueTags_foreign (s : List TBlock) (n : Nat) : ∀ t ∈ dueTags s n, isForeign t = true := by
